@@ -310,3 +310,68 @@ def py_check(res):
     res.count("PY-STATE-SHAPE", n)
     res.extra["python_state_facts"] = facts
     return facts
+
+
+def py_class_swap(res):
+    """TYPE-NAMES (Python side): _fix_pickle makes the Python classes pickle
+    under the C names.  Facts, keyed on attribute names only: inside the loop
+    over the container kinds every Python class gets `_BTree_reduce_as` (the
+    class registered under the C name), unconditionally; where the C extension
+    is absent the class is renamed, and the rename sets `__name__` and
+    `__qualname__` to the same value (pickle writes __qualname__)."""
+    tree = pyfront.base_py()
+    fn = None
+    for n in tree.body:
+        if isinstance(n, ast.FunctionDef) and n.name == "_fix_pickle":
+            fn = n
+    if fn is None:
+        raise AnalysisError("anchor vanished: _fix_pickle")
+    loops = [l for l in ast.walk(fn) if isinstance(l, ast.For)]
+    if len(loops) != 1:
+        raise AnalysisError("_fix_pickle: expected one loop over the container kinds")
+    loop = loops[0]
+    kinds = [e.value for e in ast.walk(loop.iter) if isinstance(e, ast.Constant) and isinstance(e.value, str)]
+    n = 0
+    for k in ("Bucket", "Set", "BTree", "TreeSet"):
+        n += 1
+        if k not in kinds:
+            res.findings.add(dict(
+                rule="TYPE-NAMES", function="_fix_pickle", file=REL, line=loop.lineno,
+                construct="%s is not among the kinds whose pickled name is fixed" % k,
+                detail="the Python %s classes would pickle under their *Py names" % k, path=[]))
+
+    def attr_stores(stmts, cond=None, out=None):
+        out = [] if out is None else out
+        for st in stmts:
+            if isinstance(st, ast.Assign):
+                for t in st.targets:
+                    if isinstance(t, ast.Attribute):
+                        out.append((t.attr, pyfront.unparse(t.value), pyfront.unparse(st.value), cond))
+            elif isinstance(st, ast.If):
+                attr_stores(st.body, pyfront.unparse(st.test), out)
+                attr_stores(st.orelse, "not (%s)" % pyfront.unparse(st.test), out)
+            elif isinstance(st, ast.Try):
+                attr_stores(st.body + st.orelse + st.finalbody, cond, out)
+        return out
+    stores = attr_stores(loop.body)
+    red = [s for s in stores if s[0] == "_BTree_reduce_as"]
+    n += 1
+    if not red or any(s[3] is not None for s in red):
+        res.findings.add(dict(
+            rule="TYPE-NAMES", function="_fix_pickle", file=REL, line=loop.lineno,
+            construct="_BTree_reduce_as is not set unconditionally for every kind",
+            detail="without it __reduce__ writes the *Py class into the pickle", path=[]))
+    names = [s for s in stores if s[0] == "__name__"]
+    quals = [s for s in stores if s[0] == "__qualname__"]
+    n += 1
+    if not names or not quals or set((s[1], s[2], s[3]) for s in names) != set((s[1], s[2], s[3]) for s in quals):
+        res.findings.add(dict(
+            rule="TYPE-NAMES", function="_fix_pickle", file=REL, line=loop.lineno,
+            construct="__name__ and __qualname__ are not renamed together (%s vs %s)" % (
+                sorted(set(s[2] for s in names)), sorted(set(s[2] for s in quals))),
+            detail="pickle writes a class by __qualname__; where the C "
+                   "extension is absent the Python classes are renamed to the "
+                   "C names so that both implementations write identical "
+                   "class references - renaming only one of the two leaves "
+                   "*Py in the pickles", path=[]))
+    res.count("PY-TYPE-NAMES", n)
